@@ -215,13 +215,6 @@ theorem lockPoll_pending_task (c : Core) (l : LockSt) (f t : Nat) (fire : Bool) 
 
 /-! ### `lockDrop`, `unlock` -/
 
-theorem wakeOK_cons_of_except {f : Nat} {q : List Entry} {w : List Nat} (h : WakeOKExcept f q w) :
-    WakeOK q (f :: w) := by
-  intro e he hn
-  by_cases hf : e.owner = f
-  · simp [hf]
-  · exact List.mem_cons_of_mem _ (h e he hn hf)
-
 theorem lockDrop_word (c : Core) (l : LockSt) (f : Nat) (hst : l.tick = 2 → 2 ≤ c.st)
     (hs : l.starved = true → l.slow = true) :
     (lockDrop c l f).st + l.tick = c.st := by
